@@ -39,6 +39,7 @@ type c06Scenario struct {
 	Seg       int        `json:"segmentation"`
 	LatencyNs int64      `json:"latency_ns"`
 	Dawdle    int        `json:"handler_dawdle"`
+	Repeats   int        `json:"requests_received_twice,omitempty"`
 }
 
 const (
@@ -110,6 +111,15 @@ func refRoute(routes []c06Route, p c06Pkt) int {
 		}
 	}
 	return -1
+}
+
+func allEqual(xs []int, v int) bool {
+	for _, x := range xs {
+		if x != v {
+			return false
+		}
+	}
+	return true
 }
 
 func runC06(e *Engine, g G, o RunOpt) RunInfo {
@@ -222,6 +232,12 @@ func runC06(e *Engine, g G, o RunOpt) RunInfo {
 			}
 		}
 		sc.Packets = append(sc.Packets, p)
+		if p.Kind == "iq" && g.Pct("same-request-again", 12) {
+			// a peer that sends its request again, or reuses its ids: every one of them is a received
+			// packet of its own (routed once, and answered once if nothing handles it)
+			sc.Packets = append(sc.Packets, p)
+			sc.Repeats++
+		}
 	}
 	if g.Pct("ends-with-stream-error", 12) {
 		// the last packet of a session: it is a received packet like any other
@@ -366,7 +382,22 @@ func runC06(e *Engine, g G, o RunOpt) RunInfo {
 			gotOther[fmt.Sprintf("%s->route#%d", h.kind, h.route)]++
 		}
 	}
+	mult := map[string]int{}
 	for _, p := range sc.Packets {
+		mult[p.Kind+"/"+p.ID]++
+	}
+	if sc.Repeats > 0 {
+		e.Probe("c06.same_request_again")
+	}
+	done := map[string]bool{}
+	for _, p := range sc.Packets {
+		if p.Kind != "other" {
+			if done[p.Kind+"/"+p.ID] {
+				continue
+			}
+			done[p.Kind+"/"+p.ID] = true
+		}
+		m := mult[p.Kind+"/"+p.ID]
 		want := refRoute(sc.Routes, p)
 		if p.Kind == "other" {
 			// no id to attribute: compared as a multiset below
@@ -379,22 +410,22 @@ func runC06(e *Engine, g G, o RunOpt) RunInfo {
 		switch {
 		case want >= 0 && len(got) == 0:
 			e.Violate("C06", "matching-route-not-run", "packet %s matches route #%d (%+v) but no handler ran", p.Raw, want, sc.Routes[want])
-		case want >= 0 && (len(got) != 1 || got[0] != want):
-			e.Violate("C06", "wrong-route-run", "packet %s must run exactly route #%d, handlers run: %v", p.Raw, want, got)
+		case want >= 0 && (len(got) != m || !allEqual(got, want)):
+			e.Violate("C06", "wrong-route-run", "packet %s (received %d times) must run exactly route #%d each time, handlers run: %v", p.Raw, m, want, got)
 		case want < 0 && len(got) > 0:
 			e.Violate("C06", "handler-run-without-match", "packet %s matches no route, handlers run: %v", p.Raw, got)
 		}
 		rs := replies[p.ID]
 		needReply := want < 0 && p.Kind == "iq" && (p.Type == "get" || p.Type == "set")
-		if needReply && endsWithError && !sc.Component && len(rs) == 0 {
+		if needReply && endsWithError && !sc.Component && len(rs) < m {
 			// a client routes concurrently: the reply raced with the teardown that the server's
 			// stream error starts, and the server would not read it any more
 			continue
 		}
 		if needReply {
 			expectReplies++
-			if len(rs) != 1 {
-				e.Violate("C06", "auto-reply-count="+cnt(len(rs)), "unmatched IQ %s %s must be answered with exactly one error, server received %d", p.Type, p.ID, len(rs))
+			if len(rs) != m {
+				e.Violate("C06", "auto-reply-count="+cnt(len(rs))+map[bool]string{true: "-of-2", false: ""}[m > 1], "unmatched IQ %s %s (received %d times) must be answered with exactly one error each time, server received %d", p.Type, p.ID, m, len(rs))
 				continue
 			}
 			el := rs[0]
